@@ -243,6 +243,10 @@ DERIVED_WORLDS = [
      ['unit', 'V', 'vs', ['scaled', 'D:2.5', 'vt']],
      # plain int factors that end up with exponent -1 (reciprocals that are
      # not binary fractions)
+     # two convertible units that cancel inside a longer term
+     ['unit', 'B1', 'xq', ['term', [['x2', 1], ['x1', -1], ['x0', 1]]]],
+     ['unit', 'B2', 'yq', ['term', [['y2', 1], ['y1', -1], ['y0', 1],
+                                    ['i:3', 1]]]],
      ['unit', 'B2', 'y3', ['term', [['i:3', 1], ['y0', 1]]]],
      ['unit', 'V', 'x1/y3', ['derive', ['x1', 'y3']]],
      ['unit', 'V', 'vti', ['term', [['i:7', -1], ['x1', 1], ['y0', -1]]]]],
